@@ -32,6 +32,15 @@ def step (st : St) : List String → St × String
   | ["hashvec", _, _, expected] => (st, expected)   -- spec: published MurmurHash3-32 vectors (C05.murmur_vectors)
   | ["partition", _, _] => (st, "ok")              -- spec: C05.ranges_partition / ranges_balanced
   | ["ownsroute", _, _, _] => (st, "ok")           -- spec: C05.owns_encoded / rangeIndex_unique
+  | ["redeploy", kgc, n1, i1, n2, i2, k] =>
+    -- one operator process deployed as operator i1 of n1, then as i2 of n2: after each deployment it must own
+    -- exactly range i of `ranges kgc n` and compute / persist the key under `keyGroup kgc key`
+    let kgc := natOr kgc
+    let g := KeySpace.keyGroup kgc (hexOr k)
+    let one (n i : Nat) : String :=
+      let r := (KeySpace.ranges kgc n).getD i ⟨0, 0⟩
+      s!"{r.start},{r.stop}/{n}/{g}/{g}"
+    (st, one (natOr n1) (natOr i1) ++ ";" ++ one (natOr n2) (natOr i2))
   | ["dbkey", kgc, k, ns, d] => (st, toHex (Keys.dbKey (natOr kgc) (hexOr k) (hexOr ns) (hexOr d)))
   | ["subjkey", kgc, k] => (st, toHex (Keys.subjectKey (natOr kgc) (hexOr k)))
   | ["timerkey", kgc, k, t] => (st, toHex (Keys.timerKey (natOr kgc) (hexOr k) (natOr t)))
